@@ -14,6 +14,40 @@ import chanrun
 STRATA_QUICK = [('sync2', 3000), ('two', 2000), ('star', 1200), ('multi_srsw', 1500), ('multi_mrmw', 1500)]
 STRATA_THOROUGH = [('sync2', 120000), ('two', 80000), ('star', 40000), ('multi_srsw', 60000), ('multi_mrmw', 60000)]
 
+# A fixed corpus, independent of VERIF_SEED: the networks on which the tree shows a known scheduler finding are
+# listed by id in /verif/known_networks.json, so a NEW failing network is reported even though it looks like D22.
+FIXED_SEED = 987654
+FIXED_CORPUS = [['two', 3000], ['star', 2500], ['multi_srsw', 3500], ['multi_mrmw', 3500]]
+
+
+def failure_kind(r, run):
+    """None, or the kind of C07/C08 failure this run shows"""
+    o = run['outcome']
+    if o in ('panic', 'nostats') or o.startswith('signal'):
+        return 'panic'
+    if o == 'steps':
+        return 'hang'
+    if o == 'deadlock':
+        if run['unjustified'] or (r['net']['srsw'] and r['model']['main_done']):
+            return 'spurious-deadlock'
+        return None
+    if o == 'ok':
+        if r['net']['srsw'] and not r['model']['main_done']:
+            return 'missed-deadlock'
+        if any(p[0] == 'sync-sender-early' for p in run['problems']):
+            return 'sync-sender-early'
+        return None
+    return 'other:' + o
+
+
+def load_known_networks():
+    import json
+    try:
+        return json.load(open('/verif/known_networks.json'))['failing']
+    except (OSError, ValueError, KeyError):
+        return {}
+
+
 SAFETY_RULES = ('invented', 'duplicate', 'reorder', 'lost', 'capacity', 'nil-from-open', 'close-order')
 
 
@@ -47,5 +81,8 @@ def evaluate(prop, tier, seed):
         n = max(10, int(n * scale))
         for i in range(n):
             jobs.append((seed, i, name, ['dbg', 'rel'] if i % 4 == 0 else ['dbg']))
+    for name, n in FIXED_CORPUS:
+        for i in range(n):
+            jobs.append((FIXED_SEED, i, name, ['dbg']))
     res = vlib.pmap(chanrun.run_net, jobs, chunksize=8)
     return (chk, res), 0
